@@ -224,3 +224,61 @@ func H_C10_sequences() {
 	vfAssert(o1 == o2, "same bytes whatever ran before")
 	vfAssert(e1 == e2, "same error whatever ran before")
 }
+
+type c10Greeter struct{ Name string }
+
+func (g *c10Greeter) Greet() string { return "hello " + g.Name }
+func (g c10Greeter) Plain() string  { return "plain " + g.Name }
+
+// H_C10_history2: two executions of ONE template with different inputs, where the first
+// may have left something in process-wide or per-node state: an include whose name is
+// computed (first name a, then b, then a missing one), a method looked up first on a value
+// (where a pointer-receiver method is unreachable and the execution fails) and then through
+// a pointer, a field looked up first on a type where it is unexported: the second execution
+// yields exactly what it yields without the first (same bytes, same error-or-not).
+//
+//gosym:reach compared
+func H_C10_history2() {
+	sc := ndChoice("scenario", 4)
+	first := ndChoice("first", 3)
+	second := ndChoice("second", 3)
+	set := hxSet(nil,
+		"/inc.jet", `<{{ include n }}>`,
+		"/a.jet", `A`, "/b.jet", `B`,
+		"/meth.jet", `[{{ .Greet() }}]`,
+		"/plain.jet", `[{{ .Plain() }}]`,
+		"/fld.jet", `[{{ .Name }}]`,
+	)
+	names := []string{"/a.jet", "/b.jet", "/missing.jet"}
+	val, ptr := c10Greeter{"v"}, &c10Greeter{"p"}
+	type hidden struct{ name string }
+	datas := []interface{}{val, ptr, hidden{"h"}}
+	run := func(s *Set, k int) (string, bool) {
+		var tn string
+		var data interface{}
+		vars := make(VarMap)
+		switch sc {
+		case 0:
+			tn = "/inc.jet"
+			vars.Set("n", names[k])
+		case 1:
+			tn, data = "/meth.jet", datas[k]
+		case 2:
+			tn, data = "/plain.jet", datas[k]
+		default:
+			tn, data = "/fld.jet", datas[k]
+		}
+		o, err := hxExec(s, tn, vars, data)
+		return o, err != nil
+	}
+	fresh := hxSet(nil,
+		"/inc.jet", `<{{ include n }}>`, "/a.jet", `A`, "/b.jet", `B`,
+		"/meth.jet", `[{{ .Greet() }}]`, "/plain.jet", `[{{ .Plain() }}]`, "/fld.jet", `[{{ .Name }}]`)
+	wantOut, wantErr := run(fresh, second)
+	run(set, first)
+	gotOut, gotErr := run(set, second)
+	vfReach("compared")
+	vfNote(gotOut)
+	vfAssert(gotErr == wantErr, "the same error-or-not whatever ran before")
+	vfAssert(gotOut == wantOut, "the same bytes whatever ran before")
+}
